@@ -2,6 +2,7 @@
 //! pure function; the family of run `index` is what one "evaluation" executes.
 
 use crate::gen::*;
+use crate::kernel::{Action, Directive, KOp};
 use crate::ops::*;
 use crate::rng::{mix, str_id, Rng};
 
@@ -31,34 +32,40 @@ pub fn run_seed(prop: &str, base_seed: u64, index: u64) -> u64 {
 /// number of evaluations per tier (wall-clock caps are applied by the coordinator)
 pub fn budget(prop: &str, tier: Tier) -> u64 {
     let q = match prop {
-        "C01" => 40_000,
-        "C02" => 12_000,
-        "C03" => 12_000,
-        "C04" => 20_000,
-        "C05" => 12_000,
-        "C06" => 4_000,
-        "C07" => 5_000,
-        "C08" => 12_000,
-        "C09" => 1_500,
-        "C10" => 20_000,
-        "C11" => 10_000,
-        "C12" => 3_000,
-        "C13" => 2_000,
-        "C14" => 20_000,
-        "C15" => 8_000,
+        "C01" => 60_000,
+        "C02" => 20_000,
+        "C03" => 20_000,
+        "C04" => 30_000,
+        "C05" => 15_000,
+        "C06" => 6_000,
+        "C07" => 6_000,
+        "C08" => 8_000,
+        "C09" => 600,
+        "C10" => 30_000,
+        "C11" => 15_000,
+        "C12" => 6_000,
+        "C13" => c13_cases().len() as u64,
+        "C14" => 30_000,
+        "C15" => 12_000,
         "C16" => 1_500,
-        "C17" => 8_000,
-        "C18" => 8_000,
+        "C17" => 10_000,
+        "C18" => 10_000,
         _ => 1000,
     };
-    match tier {
-        Tier::Quick => q,
-        Tier::Thorough => q * 12,
+    match (tier, prop) {
+        (Tier::Quick, _) => q,
+        (Tier::Thorough, "C13") => q,
+        (Tier::Thorough, "C09") => q * 6,
+        (Tier::Thorough, _) => q * 12,
     }
 }
 
 fn ktype_pick(r: &mut Rng) -> KType {
     *r.pick(&[KType::Str, KType::Str, KType::Bytes, KType::Bytes, KType::U64, KType::I64, KType::Vu64])
+}
+
+fn bytes_ktype(r: &mut Rng) -> KType {
+    *r.pick(&[KType::Str, KType::Bytes])
 }
 
 fn single_map(r: &mut Rng, kt: KType, params: Params) -> Vec<MapSpec> {
@@ -67,17 +74,19 @@ fn single_map(r: &mut Rng, kt: KType, params: Params) -> Vec<MapSpec> {
 }
 
 fn base_episode(prop: &str, profile: &str, seed: u64, maps: Vec<MapSpec>, steps: Vec<Step>, checks: Checks) -> Episode {
-    Episode { property: prop.to_string(), profile: profile.to_string(), seed, maps, steps, faults: vec![], buggify: None, checks, plan: Plan::Single, poison: 0 }
+    Episode { property: prop.to_string(), profile: profile.to_string(), seed, maps, steps, faults: vec![], buggify: None, checks, plan: Plan::Single, poison: 0, preload: None }
 }
 
-pub fn c01(seed: u64, tier: Tier) -> Vec<Episode> {
-    let thorough = tier == Tier::Thorough;
-    let mut g = Gen::new(seed, thorough);
-    let kt = ktype_pick(&mut g.rng);
-    let variant = g.rng.weighted(&[35, 30, 25, 10]);
-    let (params, alphabet, kd, vd, steps, name) = match variant {
+fn small_params(r: &mut Rng) -> Params {
+    Params { buckets: pick_small_buckets(r), htx: pick_buf(r, false), key: pick_buf(r, true), val: pick_buf(r, true) }
+}
+
+/// shared shape of the update histories (C01 style): (params, alphabet, kd, vd, steps, name)
+fn update_variant(g: &mut Gen, thorough: bool, long_ok: bool) -> (Params, usize, KeyDist, ValDist, usize, &'static str) {
+    let variant = g.rng.weighted(&[35, 30, 25, if long_ok { 10 } else { 0 }]);
+    match variant {
         0 => {
-            let p = Params { buckets: pick_small_buckets(&mut g.rng), htx: pick_buf(&mut g.rng, false), key: pick_buf(&mut g.rng, true), val: pick_buf(&mut g.rng, true) };
+            let p = small_params(&mut g.rng);
             (p, g.rng.range(1, 8) as usize, KeyDist::Boundary, ValDist::Boundary, g.rng.range(10, 120) as usize, "tiny")
         }
         1 => (pick_params(&mut g.rng, false), g.rng.range(2, 40) as usize, KeyDist::Mixed, ValDist::Mixed, g.rng.range(10, 150) as usize, "boundary"),
@@ -92,7 +101,14 @@ pub fn c01(seed: u64, tier: Tier) -> Vec<Episode> {
             let n = if thorough { g.rng.range(2000, 100_000) } else { g.rng.range(500, 4000) };
             (pick_params(&mut g.rng, thorough), g.rng.range(8, 64) as usize, KeyDist::Mixed, ValDist::Mixed, n as usize, "long")
         }
-    };
+    }
+}
+
+pub fn c01(seed: u64, tier: Tier) -> Vec<Episode> {
+    let thorough = tier == Tier::Thorough;
+    let mut g = Gen::new(seed, thorough);
+    let kt = ktype_pick(&mut g.rng);
+    let (params, alphabet, kd, vd, steps, name) = update_variant(&mut g, thorough, true);
     let maps = single_map(&mut g.rng, kt, params);
     let cfg = HistCfg { maps: maps.clone(), alphabet, kd, vd, steps, w: Weights::basic(), one_bucket: false, reopen_params: false, xproc_every: 0, bulk_max: 0 };
     let st = history(&mut g, &cfg);
@@ -102,17 +118,936 @@ pub fn c01(seed: u64, tier: Tier) -> Vec<Episode> {
     vec![ep]
 }
 
+pub fn c02(seed: u64, tier: Tier) -> Vec<Episode> {
+    let thorough = tier == Tier::Thorough;
+    let mut g = Gen::new(seed, thorough);
+    let kt = ktype_pick(&mut g.rng);
+    let (params, alphabet, kd, vd, steps, name) = update_variant(&mut g, thorough, false);
+    let mut maps = single_map(&mut g.rng, kt, params);
+    if g.rng.chance(1, 3) {
+        maps.push(MapSpec { name: "second".into(), kt: ktype_pick(&mut g.rng), params: small_params(&mut g.rng), dir: 0 });
+    }
+    let mut w = Weights::basic();
+    w.reopen = *g.rng.pick(&[3u32, 6, 12]);
+    w.handles = 6;
+    w.iter_steps = 3;
+    w.traverse = 2;
+    let cfg = HistCfg { maps: maps.clone(), alphabet, kd, vd, steps, w, one_bucket: false, reopen_params: true, xproc_every: if thorough { 1 } else { 8 }, bulk_max: 0 };
+    let mut st = history(&mut g, &cfg);
+    st.push(Step::Reopen { params: Some(maps.iter().map(|_| pick_params(&mut g.rng, false)).collect()), xproc: g.rng.chance(1, 8) || thorough });
+    let checks = Checks { model: true, audit_traverse: true, decode_on_close: true, reopen_must_succeed: true, iter: true, ..Default::default() };
+    let mut ep = base_episode("C02", name, seed, maps, st, checks);
+    ep.buggify = buggify(&mut g, seed);
+    vec![ep]
+}
+
+pub fn c03(seed: u64, tier: Tier) -> Vec<Episode> {
+    let thorough = tier == Tier::Thorough;
+    let mut g = Gen::new(seed, thorough);
+    let nm = *g.rng.pick(&[1usize, 1, 1, 2, 3, 4]);
+    let names = map_names();
+    let maps: Vec<MapSpec> = (0..nm)
+        .map(|i| {
+            let p = if g.rng.chance(1, 2) { small_params(&mut g.rng) } else { pick_params(&mut g.rng, false) };
+            MapSpec { name: names[i].to_string(), kt: ktype_pick(&mut g.rng), params: p, dir: 0 }
+        })
+        .collect();
+    let mut w = Weights::basic();
+    w.flush = 8;
+    w.sync = 10;
+    w.db_sync = 6;
+    w.handles = 3;
+    w.bulk = 2;
+    let vd = *g.rng.pick(&[ValDist::Boundary, ValDist::Mixed, ValDist::Mixed, ValDist::Pushing]);
+    let cfg = HistCfg { maps: maps.clone(), alphabet: g.rng.range(2, 30) as usize, kd: KeyDist::Mixed, vd, steps: g.rng.range(5, 120) as usize, w, one_bucket: false, reopen_params: false, xproc_every: 0, bulk_max: 6 };
+    let mut st = Vec::new();
+    if g.rng.chance(1, 4) {
+        // sync directly after creation, no update at all
+        st.push(match g.rng.below(4) {
+            0 => Step::Flush { h: 0 },
+            1 => Step::SyncAll { h: 0 },
+            2 => Step::SyncData { h: 0 },
+            _ => Step::DbSyncAll { d: 0 },
+        });
+    }
+    st.extend(history(&mut g, &cfg));
+    st.push(match g.rng.below(5) {
+        0 => Step::Flush { h: 0 },
+        1 => Step::SyncAll { h: 0 },
+        2 => Step::SyncData { h: 0 },
+        3 => Step::DbSyncData { d: 0 },
+        _ => Step::DbSyncAll { d: 0 },
+    });
+    let checks = Checks { crash_points: true, sync_trace: true, crash_reopen_every: if thorough { 1 } else { 3 }, audit_traverse: true, ..Default::default() };
+    let mut ep = base_episode("C03", "sync-points", seed, maps, st, checks);
+    ep.buggify = buggify(&mut g, seed);
+    vec![ep]
+}
+
+pub fn c04(seed: u64, tier: Tier) -> Vec<Episode> {
+    let thorough = tier == Tier::Thorough;
+    let mut g = Gen::new(seed, thorough);
+    let kt = ktype_pick(&mut g.rng);
+    let mut params = pick_params(&mut g.rng, thorough);
+    // every size class around the 8- and 64-bucket strides of the bitmap scan
+    if g.rng.chance(2, 3) {
+        params.buckets = Buckets::Size(*g.rng.pick(&[1u64, 2, 4, 8, 16, 32, 64, 128, 128, 256, 256, 512, 1024, 4096, 65536]));
+    }
+    let mut maps = single_map(&mut g.rng, kt, params.clone());
+    if g.rng.chance(1, 3) {
+        maps.push(MapSpec { name: "other".into(), kt: ktype_pick(&mut g.rng), params: small_params(&mut g.rng), dir: 0 });
+    }
+    let nb = params.expected_buckets(false);
+    let mut st: Vec<Step> = Vec::new();
+    // optionally place single entries at chosen bucket positions (0, 7, 8, n-9, n-8, n-1)
+    if nb >= 16 && nb <= 65536 && !kt.is_int() && g.rng.chance(1, 2) {
+        let mut targets = vec![0u64, 7, 8, nb - 9, nb - 8, nb - 1, nb / 2];
+        crate::runner::seeded_shuffle(&mut targets, &mut g.rng);
+        targets.truncate(g.rng.range(1, 4) as usize);
+        for t in targets {
+            let n = g.rng.range(1, 3) as usize;
+            let ks = g.alphabet(kt, n, KeyDist::Short, Some((nb, t)));
+            for k in ks {
+                let v = g.value(ValDist::Tiny);
+                st.push(Step::Put { h: 0, k, v, mode: KeyMode::Ref });
+            }
+        }
+    }
+    let mut w = Weights::basic();
+    w.put = 30;
+    w.del = 22;
+    w.traverse = 14;
+    w.iter_steps = 16;
+    w.get = 8;
+    w.handles = 3;
+    let alphabet = *g.rng.pick(&[1usize, 2, 3, 5, 8, 16, 40, 120]);
+    let cfg = HistCfg { maps: maps.clone(), alphabet, kd: KeyDist::Short, vd: ValDist::Tiny, steps: g.rng.range(5, 160) as usize, w, one_bucket: g.rng.chance(1, 8), reopen_params: false, xproc_every: 0, bulk_max: 0 };
+    st.extend(history(&mut g, &cfg));
+    // sometimes empty the map again before the final traversals
+    if g.rng.chance(1, 6) {
+        let keys: Vec<Key> = st.iter().filter_map(|s| if let Step::Put { h: 0, k, .. } = s { Some(k.clone()) } else { None }).collect();
+        for k in keys {
+            st.push(Step::Del { h: 0, k, mode: KeyMode::Ref });
+        }
+    }
+    for fl in ALL_FLAVOURS {
+        if g.rng.chance(2, 3) {
+            st.push(Step::Traverse { h: 0, fl, stop_after: None });
+        }
+    }
+    let checks = Checks { iter: true, ..Default::default() };
+    let mut ep = base_episode("C04", "traversals", seed, maps, st, checks);
+    ep.buggify = buggify(&mut g, seed);
+    vec![ep]
+}
+
+pub fn c05(seed: u64, tier: Tier) -> Vec<Episode> {
+    let thorough = tier == Tier::Thorough;
+    let mut g = Gen::new(seed, thorough);
+    let kt = ktype_pick(&mut g.rng);
+    let (params, alphabet, kd, vd, steps, name) = update_variant(&mut g, thorough, true);
+    let maps = single_map(&mut g.rng, kt, params);
+    let mut w = Weights::basic();
+    w.flush = 2;
+    w.sync = 2;
+    w.reopen = 1;
+    w.bulk = 3;
+    let cfg = HistCfg { maps: maps.clone(), alphabet, kd, vd, steps, w, one_bucket: g.rng.chance(1, 5), reopen_params: false, xproc_every: 0, bulk_max: 8 };
+    let st = history(&mut g, &cfg);
+    let checks = Checks { decode_every: *g.rng.pick(&[1u32, 4, 16]), decode_on_close: true, crash_points: true, ..Default::default() };
+    let mut ep = base_episode("C05", name, seed, maps, st, checks);
+    ep.buggify = buggify(&mut g, seed);
+    vec![ep]
+}
+
+pub fn c06(seed: u64, tier: Tier) -> Vec<Episode> {
+    let thorough = tier == Tier::Thorough;
+    let mut g = Gen::new(seed, thorough);
+    let kt = ktype_pick(&mut g.rng);
+    let params = if g.rng.chance(1, 2) { small_params(&mut g.rng) } else { pick_params(&mut g.rng, false) };
+    let maps = single_map(&mut g.rng, kt, params);
+    let cyclic = g.rng.chance(1, 3);
+    let mut st: Vec<Step> = Vec::new();
+    let name;
+    if cyclic {
+        name = "cyclic";
+        // a fixed update cycle repeated many times: returns to the same logical contents
+        let nk = g.rng.range(2, 8) as usize;
+        let keys = g.alphabet(kt, nk, KeyDist::Boundary, None);
+        let lens: Vec<usize> = (0..6).map(|_| g.val_len(ValDist::Mixed)).collect();
+        let mut cycle: Vec<(usize, Option<usize>)> = Vec::new();
+        for _ in 0..g.rng.range(4, 14) {
+            let ki = g.rng.below(keys.len() as u64) as usize;
+            if g.rng.chance(1, 3) {
+                cycle.push((ki, None));
+            } else {
+                cycle.push((ki, Some(*g.rng.pick(&lens))));
+            }
+        }
+        // end of cycle: delete everything
+        for ki in 0..keys.len() {
+            cycle.push((ki, None));
+        }
+        let reps = if thorough { g.rng.range(50, 500) } else { g.rng.range(8, 60) };
+        for _ in 0..reps {
+            for (ki, op) in &cycle {
+                match op {
+                    Some(n) => {
+                        let v = g.value_of_len(*n);
+                        st.push(Step::Put { h: 0, k: keys[*ki].clone(), v, mode: KeyMode::Ref })
+                    }
+                    None => st.push(Step::Del { h: 0, k: keys[*ki].clone(), mode: KeyMode::Ref }),
+                }
+            }
+        }
+        st.push(Step::Stats { h: 0 });
+    } else {
+        name = "churn";
+        let mut w = Weights::basic();
+        w.put = 40;
+        w.del = 30;
+        w.get = 5;
+        w.stats = 3;
+        w.bulk = 2;
+        w.reopen = 1;
+        let cfg = HistCfg { maps: maps.clone(), alphabet: g.rng.range(2, 20) as usize, kd: KeyDist::Boundary, vd: ValDist::Mixed, steps: g.rng.range(10, 200) as usize, w, one_bucket: false, reopen_params: false, xproc_every: 0, bulk_max: 5 };
+        st = history(&mut g, &cfg);
+        st.push(Step::Stats { h: 0 });
+    }
+    let checks = Checks { growth_rule: true, post_update: true, decode_on_close: true, ..Default::default() };
+    vec![base_episode("C06", name, seed, maps, st, checks)]
+}
+
+/// buffer settings including ones small enough to force eviction
+fn tight_buf(r: &mut Rng) -> Buf {
+    r.pick(&[Buf::Auto, Buf::Auto, Buf::Size(262144), Buf::Size(300000), Buf::PerMille(1000), Buf::Size(131072), Buf::Size(4096), Buf::Size(0)]).clone()
+}
+
+/// the one region excluded from general generation (DESIGN §6, D6): a PerMille(p<1000) budget
+/// on a record file that grows past one 128 KiB chunk.  Probed by exactly this scenario.
+pub fn c07_permille_probe(seed: u64, quick: bool) -> Episode {
+    let mut g = Gen::new(seed, false);
+    let p = *g.rng.pick(&[1u16, 20, 500, 999]);
+    // the key-file variant overflows the stack at once; the value-file variant spins until
+    // the CPU budget ends the run (thorough tier only, it costs the whole budget)
+    let on_key = quick || g.rng.chance(1, 3);
+    let params = Params { buckets: Buckets::Size(8), htx: Buf::PerMille(1000), key: if on_key { Buf::PerMille(p) } else { Buf::PerMille(1000) }, val: if on_key { Buf::PerMille(1000) } else { Buf::PerMille(p) } };
+    let maps = vec![MapSpec { name: "m".into(), kt: KType::Bytes, params, dir: 0 }];
+    let mut st = Vec::new();
+    for i in 0..6u64 {
+        let tag = g.next_tag();
+        if on_key {
+            let v = g.value_of_len(3);
+            st.push(Step::Put { h: 0, k: Key::G { len: 50_000, tag }, v, mode: KeyMode::Ref });
+        } else {
+            let v = g.value_of_len(60_000);
+            st.push(Step::Put { h: 0, k: Key::U(i).stored_key(), v, mode: KeyMode::Ref });
+        }
+    }
+    st.push(Step::Audit);
+    let checks = Checks { model: true, panics: true, ..Default::default() };
+    base_episode("C07", "permille-lt-1000-probe", seed, maps, st, checks)
+}
+
+pub fn c07(seed: u64, tier: Tier, index: u64) -> Vec<Episode> {
+    if (tier == Tier::Quick && index == 3) || (tier == Tier::Thorough && index % 5000 == 3) {
+        return vec![c07_permille_probe(seed, tier == Tier::Quick)];
+    }
+    let thorough = tier == Tier::Thorough;
+    let mut g = Gen::new(seed, thorough);
+    let kt = ktype_pick(&mut g.rng);
+    let mut w = Weights::basic();
+    w.reopen = 2;
+    w.traverse = 3;
+    w.bulk = 2;
+    w.flush = 1;
+    let vd = *g.rng.pick(&[ValDist::Mixed, ValDist::Pushing, ValDist::Pushing]);
+    let name = *g.rng.pick(&map_names());
+    let proto = vec![MapSpec { name: name.to_string(), kt, params: Params::default_small(8), dir: 0 }];
+    let cfg = HistCfg { maps: proto.clone(), alphabet: g.rng.range(2, 40) as usize, kd: KeyDist::Mixed, vd, steps: g.rng.range(20, 250) as usize, w, one_bucket: false, reopen_params: true, xproc_every: 0, bulk_max: 6 };
+    let st = history(&mut g, &cfg);
+    let n_cfg = g.rng.range(3, 6) as usize;
+    let checks = Checks { model: true, audit_every: 64, audit_traverse: true, iter: true, panics: true, reopen_must_succeed: true, decode_on_close: true, ..Default::default() };
+    let mut out = Vec::new();
+    for c in 0..n_cfg {
+        let mut r = Rng::new(mix(&[seed, 0xc07, c as u64]));
+        let params = Params {
+            buckets: if c == 0 { Buckets::Size(*r.pick(&[1u64, 2, 3, 5, 8])) } else { pick_buckets(&mut r, thorough) },
+            htx: if c == 1 { Buf::Auto } else { tight_buf(&mut r) },
+            key: if c == 1 { Buf::Auto } else { tight_buf(&mut r) },
+            val: if c == 1 { Buf::Auto } else { tight_buf(&mut r) },
+        };
+        let maps = vec![MapSpec { name: name.to_string(), kt, params, dir: 0 }];
+        // the reopen parameters drawn for the prototype are re-drawn per configuration
+        let mut steps = st.clone();
+        for s in steps.iter_mut() {
+            if let Step::Reopen { params, .. } = s {
+                *params = Some(vec![Params { buckets: pick_buckets(&mut r, thorough), htx: tight_buf(&mut r), key: tight_buf(&mut r), val: tight_buf(&mut r) }]);
+            }
+        }
+        out.push(base_episode("C07", "configurations", seed, maps, steps, checks.clone()));
+    }
+    out
+}
+
+pub fn c08(seed: u64, tier: Tier) -> Vec<Episode> {
+    let thorough = tier == Tier::Thorough;
+    let mut g = Gen::new(seed, thorough);
+    let kt = bytes_ktype(&mut g.rng);
+    let nb = *g.rng.pick(&[1u64, 2, 8, 8, 64, 1024]);
+    let params = Params { buckets: Buckets::Size(nb), htx: pick_buf(&mut g.rng, false), key: pick_buf(&mut g.rng, true), val: pick_buf(&mut g.rng, true) };
+    let maps = single_map(&mut g.rng, kt, params.clone());
+    let real_nb = params.expected_buckets(false);
+    let target = g.rng.below(real_nb);
+    let nkeys = g.rng.range(2, 6) as usize;
+    let keys = g.alphabet(kt, nkeys, KeyDist::Boundary, if real_nb > 1 { Some((real_nb, target)) } else { None });
+    let small = [0usize, 1, 13, 14, 15, 21, 22, 29, 30, 45, 46, 61, 62, 125, 126, 253, 254, 1018, 1020, 1500, 3000];
+    let mut st: Vec<Step> = Vec::new();
+    // phase 1: the chain, small values, below the first offset boundary
+    for k in &keys {
+        let n = *g.rng.pick(&small[..10]);
+        let v = g.value_of_len(n);
+        st.push(Step::Put { h: 0, k: k.clone(), v, mode: KeyMode::Ref });
+    }
+    // phase 2: push .val and/or .key past an offset-width boundary, leaving free slots below it
+    let which = g.rng.below(4);
+    let filler = Key::B(b"\xffFILLER".to_vec());
+    let big = match g.rng.below(if thorough { 4 } else { 3 }) {
+        0 => 1100usize,
+        1 => 131072 + 64,
+        2 => 131072 + 4096,
+        _ => 16 * 1024 * 1024 + 8,
+    };
+    if which != 3 {
+        let v = g.value_of_len(big);
+        st.push(Step::Put { h: 0, k: filler.clone(), v, mode: KeyMode::Ref });
+    }
+    if which >= 2 {
+        // a large key record pushes the key file past 1 KiB / 128 KiB
+        let klen = *g.rng.pick(&[1000u32, 1100, 60000]);
+        let reps = if klen >= 60000 { 3 } else { 1 };
+        for i in 0..reps {
+            let tag = g.next_tag();
+            let v = g.value_of_len(3);
+            st.push(Step::Put { h: 0, k: Key::G { len: klen + i * 3000, tag }, v, mode: KeyMode::Ref });
+        }
+    }
+    // phase 3: random overwrite-grow / shrink / delete / re-insert on every chain position
+    let n = g.rng.range(6, 60);
+    for _ in 0..n {
+        let k = keys[g.rng.below(keys.len() as u64) as usize].clone();
+        match g.rng.below(10) {
+            0..=5 => {
+                let n = *g.rng.pick(&small);
+                let v = g.value_of_len(n);
+                st.push(Step::Put { h: 0, k, v, mode: KeyMode::Ref })
+            }
+            6..=8 => st.push(Step::Del { h: 0, k, mode: KeyMode::Ref }),
+            _ => st.push(Step::Get { h: 0, k, mode: KeyMode::Ref }),
+        }
+        if g.rng.chance(1, 12) {
+            // move the end of file further / free the filler so that low slots get reused
+            if g.rng.chance(1, 2) {
+                st.push(Step::Del { h: 0, k: filler.clone(), mode: KeyMode::Ref });
+            } else {
+                let extra = g.rng.below(2000) as usize;
+                let v = g.value_of_len(big + extra);
+                st.push(Step::Put { h: 0, k: filler.clone(), v, mode: KeyMode::Ref });
+            }
+        }
+    }
+    let checks = Checks { model: true, audit_every: 16, post_update: true, panics: true, decode_on_close: true, ..Default::default() };
+    vec![base_episode("C08", "collision-chain", seed, maps, st, checks)]
+}
+
+/// C09 sweep windows: (is_key_sweep, first length, count)
+pub fn c09_windows(thorough: bool) -> Vec<(bool, usize, usize)> {
+    let mut v = Vec::new();
+    let mut a = 0;
+    while a < 4200 {
+        v.push((false, a, 100));
+        a += 100;
+    }
+    let mut a = 0;
+    while a < 1100 {
+        v.push((true, a, 100));
+        a += 100;
+    }
+    for edge in [16384usize, 131072, 1 << 20] {
+        v.push((false, edge - 40, 80));
+    }
+    if thorough {
+        for edge in [2097152usize, 16 * 1024 * 1024] {
+            v.push((false, edge - 20, 40));
+        }
+        for edge in [16384usize, 65536] {
+            v.push((true, edge - 30, 40));
+        }
+        for edge in [16384usize, 131072, 1 << 20] {
+            v.push((false, edge - 300, 260));
+            v.push((false, edge + 40, 260));
+        }
+    }
+    v
+}
+
+pub fn c09(seed: u64, tier: Tier, index: u64) -> Vec<Episode> {
+    let thorough = tier == Tier::Thorough;
+    let mut g = Gen::new(seed, thorough);
+    let wins = c09_windows(thorough);
+    let (is_key, first, count) = wins[(index as usize) % wins.len()];
+    let regime = (index as usize / wins.len()) % 3; // offset-width regime of the files
+    let kt = bytes_ktype(&mut g.rng);
+    let params = Params { buckets: Buckets::Size(*g.rng.pick(&[1u64, 8, 64])), htx: Buf::PerMille(1000), key: pick_buf(&mut g.rng, true), val: pick_buf(&mut g.rng, true) };
+    let maps = single_map(&mut g.rng, kt, params);
+    let mut st: Vec<Step> = Vec::new();
+    // regime: where in the files the sentinel group lives
+    match regime {
+        1 => {
+            let v = g.value_of_len(2000);
+            st.push(Step::Put { h: 0, k: Key::B(b"\xfepad".to_vec()), v, mode: KeyMode::Ref })
+        }
+        2 => {
+            let v = g.value_of_len(140_000);
+            st.push(Step::Put { h: 0, k: Key::B(b"\xfepad".to_vec()), v, mode: KeyMode::Ref })
+        }
+        _ => {}
+    }
+    let ka = Key::B(b"sentinel-A".to_vec());
+    let kb = Key::B(b"sentinel-B".to_vec());
+    let la = *g.rng.pick(&[5usize, 14, 30, 200]);
+    let lb = *g.rng.pick(&[5usize, 14, 30, 200]);
+    let va = g.value_of_len(la);
+    let vb = g.value_of_len(lb);
+    if is_key {
+        // each key length is its own entry between the sentinels: A, X(len), B
+        for len in first..first + count {
+            let kx = if len <= 64 { Key::B(crate::rng::payload(0x4b00 + len as u64, len)) } else { Key::G { len: len as u32, tag: 0x4b00 + len as u64 } };
+            let vx = g.value_of_len(len % 20);
+            st.push(Step::Put { h: 0, k: ka.clone(), v: va.clone(), mode: KeyMode::Ref });
+            st.push(Step::Put { h: 0, k: kx.clone(), v: vx, mode: KeyMode::Ref });
+            st.push(Step::Put { h: 0, k: kb.clone(), v: vb.clone(), mode: KeyMode::Ref });
+            st.push(Step::Get { h: 0, k: kx.clone(), mode: KeyMode::Ref });
+            st.push(Step::Get { h: 0, k: ka.clone(), mode: KeyMode::Ref });
+            st.push(Step::Get { h: 0, k: kb.clone(), mode: KeyMode::Ref });
+            if g.rng.chance(1, 2) {
+                st.push(Step::Del { h: 0, k: kx, mode: KeyMode::Ref });
+            }
+        }
+    } else {
+        let kx = Key::B(b"middle-X".to_vec());
+        let v0 = g.value_of_len(first);
+        st.push(Step::Put { h: 0, k: ka.clone(), v: va, mode: KeyMode::Ref });
+        st.push(Step::Put { h: 0, k: kx.clone(), v: v0, mode: KeyMode::Ref });
+        st.push(Step::Put { h: 0, k: kb.clone(), v: vb, mode: KeyMode::Ref });
+        let order: Vec<usize> = if g.rng.chance(1, 2) { (first..first + count).collect() } else { (first..first + count).rev().collect() };
+        for len in order {
+            let v = g.value_of_len(len);
+            st.push(Step::Put { h: 0, k: kx.clone(), v, mode: KeyMode::Ref });
+            st.push(Step::Get { h: 0, k: kx.clone(), mode: KeyMode::Ref });
+            // a byte shorter / longer across whatever boundary lies here
+            let other = if g.rng.chance(1, 2) { len + 1 } else { len.saturating_sub(1) };
+            let v = g.value_of_len(other);
+            st.push(Step::Put { h: 0, k: kx.clone(), v, mode: KeyMode::Ref });
+            st.push(Step::Get { h: 0, k: kx.clone(), mode: KeyMode::Ref });
+            if g.rng.chance(1, 8) {
+                st.push(Step::Get { h: 0, k: ka.clone(), mode: KeyMode::Ref });
+                st.push(Step::Get { h: 0, k: kb.clone(), mode: KeyMode::Ref });
+            }
+        }
+    }
+    st.push(Step::Audit);
+    let checks = Checks { model: true, post_update: true, sentinel: true, decode_on_close: true, ..Default::default() };
+    vec![base_episode("C09", if is_key { "key-length-sweep" } else { "value-length-sweep" }, seed, maps, st, checks)]
+}
+
+pub fn c10(seed: u64, tier: Tier) -> Vec<Episode> {
+    let thorough = tier == Tier::Thorough;
+    let mut g = Gen::new(seed, thorough);
+    let kt = *g.rng.pick(&[KType::U64, KType::U64, KType::I64, KType::I64, KType::Vu64, KType::Vu64, KType::Str, KType::Bytes]);
+    let params = if g.rng.chance(1, 2) { small_params(&mut g.rng) } else { pick_params(&mut g.rng, false) };
+    let maps = single_map(&mut g.rng, kt, params);
+    let mut w = Weights::basic();
+    w.traverse = 6;
+    w.reopen = 2;
+    w.bulk = 3;
+    w.put_iter = 2;
+    w.strs = 3;
+    let cfg = HistCfg { maps: maps.clone(), alphabet: g.rng.range(2, 60) as usize, kd: KeyDist::Short, vd: ValDist::Tiny, steps: g.rng.range(10, 150) as usize, w, one_bucket: false, reopen_params: false, xproc_every: if thorough { 1 } else { 0 }, bulk_max: 10 };
+    let st = history(&mut g, &cfg);
+    let checks = Checks { model: true, typed: true, iter: true, audit_traverse: true, audit_every: 50, ..Default::default() };
+    vec![base_episode("C10", "typed-keys", seed, maps, st, checks)]
+}
+
+pub fn c11(seed: u64, tier: Tier) -> Vec<Episode> {
+    let thorough = tier == Tier::Thorough;
+    let mut g = Gen::new(seed, thorough);
+    let nm = g.rng.range(2, 5) as usize;
+    let names = map_names();
+    let mut order: Vec<usize> = (0..names.len()).collect();
+    crate::runner::seeded_shuffle(&mut order, &mut g.rng);
+    let maps: Vec<MapSpec> = (0..nm)
+        .map(|i| MapSpec { name: names[order[i]].to_string(), kt: ktype_pick(&mut g.rng), params: if g.rng.chance(2, 3) { small_params(&mut g.rng) } else { pick_params(&mut g.rng, false) }, dir: 0 })
+        .collect();
+    let mut w = Weights::basic();
+    w.handles = 14;
+    w.flush = 3;
+    w.sync = 2;
+    w.db_sync = 2;
+    w.traverse = 3;
+    w.iter_steps = 4;
+    w.bulk = 2;
+    w.reopen = 1;
+    let vd = *g.rng.pick(&[ValDist::Tiny, ValDist::Mixed, ValDist::Pushing]);
+    let cfg = HistCfg { maps: maps.clone(), alphabet: g.rng.range(2, 16) as usize, kd: KeyDist::Short, vd, steps: g.rng.range(20, 250) as usize, w, one_bucket: false, reopen_params: false, xproc_every: 0, bulk_max: 5 };
+    let st = history(&mut g, &cfg);
+    let checks = Checks { model: true, isolation: true, file_names: true, audit_every: 40, iter: true, ..Default::default() };
+    vec![base_episode("C11", "interleaved-maps", seed, maps, st, checks)]
+}
+
+pub fn c12(seed: u64, tier: Tier, index: u64) -> Vec<Episode> {
+    let thorough = tier == Tier::Thorough;
+    let mut g = Gen::new(seed, thorough);
+    let goldens = crate::golden::list_goldens();
+    if goldens.is_empty() || index % 3 == 2 {
+        // fresh files written now must follow the documented layout and placement
+        let kt = ktype_pick(&mut g.rng);
+        let (params, alphabet, kd, vd, steps, _) = update_variant(&mut g, thorough, false);
+        let maps = single_map(&mut g.rng, kt, params);
+        let mut w = Weights::basic();
+        w.reopen = 1;
+        w.flush = 2;
+        let cfg = HistCfg { maps: maps.clone(), alphabet, kd, vd, steps, w, one_bucket: false, reopen_params: false, xproc_every: 0, bulk_max: 0 };
+        let st = history(&mut g, &cfg);
+        let checks = Checks { decode_every: 8, decode_on_close: true, ..Default::default() };
+        return vec![base_episode("C12", "fresh-layout", seed, maps, st, checks)];
+    }
+    let gi = (index / 3 * 2 + index % 3) as usize;
+    let name = &goldens[gi % goldens.len()];
+    let (meta, _) = match crate::golden::load_golden(name) {
+        Some(x) => x,
+        None => return vec![],
+    };
+    let mut spec = meta.map.clone();
+    // parameters at open are ignored in favour of what is stored: draw others
+    if g.rng.chance(1, 2) {
+        spec.params = pick_params(&mut g.rng, false);
+    }
+    let maps = vec![spec];
+    let mut w = Weights::basic();
+    w.reopen = 2;
+    w.traverse = 3;
+    w.flush = 1;
+    w.bulk = 1;
+    let cfg = HistCfg { maps: maps.clone(), alphabet: g.rng.range(2, 20) as usize, kd: KeyDist::Mixed, vd: ValDist::Mixed, steps: g.rng.range(0, 80) as usize, w, one_bucket: false, reopen_params: true, xproc_every: 0, bulk_max: 4 };
+    let mut st = history(&mut g, &cfg);
+    // also touch the recorded entries: overwrite / delete some of the golden keys
+    let mut extra = Vec::new();
+    for (k, _, _) in meta.contents.iter() {
+        match g.rng.below(6) {
+            0 => extra.push(Step::Del { h: 0, k: k.clone(), mode: KeyMode::Ref }),
+            1 => {
+                let v = g.value(ValDist::Mixed);
+                extra.push(Step::Put { h: 0, k: k.clone(), v, mode: KeyMode::Ref })
+            }
+            2 => extra.push(Step::Get { h: 0, k: k.clone(), mode: KeyMode::Ref }),
+            _ => {}
+        }
+    }
+    let pos = if st.is_empty() { 0 } else { g.rng.below(st.len() as u64) as usize };
+    let tail = st.split_off(pos);
+    st.extend(extra);
+    st.extend(tail);
+    let checks = Checks { model: true, audit_every: 32, audit_traverse: true, iter: true, decode_on_close: true, decode_every: 16, panics: true, reopen_must_succeed: true, ..Default::default() };
+    let mut ep = base_episode("C12", "golden", seed, maps, st, checks);
+    ep.preload = Some(name.clone());
+    vec![ep]
+}
+
+#[derive(Clone, Debug)]
+pub enum C13Case {
+    Pair(KType, KType),
+    SigByte { kt: KType, file: u8, off: u64, xor: u8 },
+    Swap { kt: KType, other: KType, file: u8 },
+}
+
+pub fn c13_cases() -> Vec<C13Case> {
+    let mut v = Vec::new();
+    for a in ALL_KTYPES {
+        for b in ALL_KTYPES {
+            v.push(C13Case::Pair(a, b));
+        }
+    }
+    for (ti, kt) in ALL_KTYPES.iter().enumerate() {
+        for file in 0..3u8 {
+            for off in 0..16u64 {
+                let sig1: &[u8; 8] = match file {
+                    0 => crate::decoder::SIG_HTX,
+                    1 => crate::decoder::SIG_KEY,
+                    _ => crate::decoder::SIG_VAL,
+                };
+                let cur = if off < 8 { sig1[off as usize] } else { kt.signature()[(off - 8) as usize] };
+                let mut xors: Vec<u8> = (0..8).map(|b| 1u8 << b).collect();
+                if cur != 0 {
+                    xors.push(cur); // -> 0x00
+                }
+                if cur != 0xff {
+                    xors.push(cur ^ 0xff); // -> 0xFF
+                }
+                if off >= 8 {
+                    for o in ALL_KTYPES {
+                        let x = o.signature()[(off - 8) as usize] ^ cur;
+                        if x != 0 {
+                            xors.push(x);
+                        }
+                    }
+                }
+                xors.sort_unstable();
+                xors.dedup();
+                // the type-signature bytes for all five creating types; the fixed signature
+                // bytes are the same for every type: enumerated for one type per file
+                if off >= 8 || ti == (file as usize) {
+                    for x in xors {
+                        v.push(C13Case::SigByte { kt: *kt, file, off, xor: x });
+                    }
+                }
+            }
+        }
+    }
+    for a in ALL_KTYPES {
+        for b in ALL_KTYPES {
+            if a != b {
+                for file in 0..3u8 {
+                    v.push(C13Case::Swap { kt: a, other: b, file });
+                }
+            }
+        }
+    }
+    v
+}
+
+pub fn c13(seed: u64, _tier: Tier, index: u64) -> Vec<Episode> {
+    let mut g = Gen::new(seed, false);
+    let cases = c13_cases();
+    let case = cases[(index as usize) % cases.len()].clone();
+    fn populate(g: &mut Gen, kt: KType, h: u8, st: &mut Vec<Step>) {
+        let n = g.rng.range(1, 10) as usize;
+        let keys = g.alphabet(kt, n, KeyDist::Short, None);
+        for k in keys {
+            let v = g.value(ValDist::Tiny);
+            st.push(Step::Put { h, k, v, mode: KeyMode::Ref });
+        }
+    }
+    let params = small_params(&mut g.rng);
+    let mut st = Vec::new();
+    let maps;
+    let name;
+    match case {
+        C13Case::Pair(a, b) => {
+            name = "type-pair";
+            maps = vec![MapSpec { name: "t".into(), kt: a, params, dir: 0 }];
+            populate(&mut g, a, 0, &mut st);
+            st.push(Step::ForeignOpen { m: 0, as_kt: b, expect_refused: a != b, swapped_from: None });
+            st.push(Step::ForeignOpen { m: 0, as_kt: a, expect_refused: false, swapped_from: None });
+        }
+        C13Case::SigByte { kt, file, off, xor } => {
+            name = "signature-byte";
+            maps = vec![MapSpec { name: "t".into(), kt, params, dir: 0 }];
+            populate(&mut g, kt, 0, &mut st);
+            st.push(Step::Corrupt { m: 0, kind: file, off, xor });
+            st.push(Step::ForeignOpen { m: 0, as_kt: kt, expect_refused: true, swapped_from: None });
+            st.push(Step::Corrupt { m: 0, kind: file, off, xor });
+            st.push(Step::ForeignOpen { m: 0, as_kt: kt, expect_refused: false, swapped_from: None });
+        }
+        C13Case::Swap { kt, other, file } => {
+            name = "swapped-file";
+            maps = vec![MapSpec { name: "t".into(), kt, params: params.clone(), dir: 0 }, MapSpec { name: "o".into(), kt: other, params, dir: 0 }];
+            populate(&mut g, kt, 0, &mut st);
+            populate(&mut g, other, 1, &mut st);
+            st.push(Step::SwapFile { m: 0, m2: 1, kind: file });
+            st.push(Step::ForeignOpen { m: 0, as_kt: kt, expect_refused: true, swapped_from: Some(other) });
+        }
+    }
+    vec![base_episode("C13", name, seed, maps, st, Checks::default())]
+}
+
+pub fn c14(seed: u64, tier: Tier) -> Vec<Episode> {
+    let thorough = tier == Tier::Thorough;
+    let mut g = Gen::new(seed, thorough);
+    let kt = ktype_pick(&mut g.rng);
+    let params = if g.rng.chance(1, 2) { small_params(&mut g.rng) } else { pick_params(&mut g.rng, false) };
+    let maps = single_map(&mut g.rng, kt, params);
+    let mut w = Weights::basic();
+    w.put = 15;
+    w.get = 8;
+    w.del = 8;
+    w.bulk = 40;
+    w.put_iter = 8;
+    w.strs = 12;
+    let bulk_max = *g.rng.pick(&[0usize, 3, 20, 200]);
+    let vd = *g.rng.pick(&[ValDist::Tiny, ValDist::Boundary]);
+    let cfg = HistCfg { maps: maps.clone(), alphabet: g.rng.range(2, 80) as usize, kd: KeyDist::Short, vd, steps: g.rng.range(5, 80) as usize, w, one_bucket: false, reopen_params: false, xproc_every: 0, bulk_max };
+    let st = history(&mut g, &cfg);
+    let checks = Checks { model: true, audit_every: 20, ..Default::default() };
+    vec![base_episode("C14", "bulk", seed, maps, st, checks)]
+}
+
+fn readonly_session(g: &mut Gen, maps: &[MapSpec], keys: &[Vec<Key>], n: usize) -> Vec<Step> {
+    let mut st = Vec::new();
+    for _ in 0..n {
+        let m = g.rng.below(maps.len() as u64) as usize;
+        let h = m as u8;
+        let a = &keys[m];
+        let kt = maps[m].kt;
+        let pick = |g: &mut Gen| -> Key {
+            if !a.is_empty() && g.rng.chance(3, 4) {
+                a[g.rng.below(a.len() as u64) as usize].clone()
+            } else {
+                g.alphabet(kt, 1, KeyDist::Short, None).pop().unwrap()
+            }
+        };
+        match g.rng.below(14) {
+            0 | 1 => {
+                let k = pick(g);
+                st.push(Step::Get { h, k, mode: KeyMode::Ref })
+            }
+            2 => {
+                let k = pick(g);
+                st.push(Step::Inc { h, k, mode: KeyMode::Ref })
+            }
+            3 => st.push(Step::Len { h }),
+            4 => st.push(Step::IsEmpty { h }),
+            5 => {
+                let n = g.rng.below(8);
+                let ks = (0..n).map(|_| pick(g)).collect();
+                st.push(Step::BulkGet { h, ks });
+            }
+            6 | 7 => {
+                let fl = *g.rng.pick(&ALL_FLAVOURS);
+                let stop_after = if g.rng.chance(1, 3) { Some(g.rng.below(3) as u32) } else { None };
+                st.push(Step::Traverse { h, fl, stop_after })
+            }
+            8 => st.push(Step::Stats { h }),
+            9 => st.push(Step::ReadFill { h }),
+            10 => st.push(Step::Flush { h }),
+            11 => st.push(if g.rng.chance(1, 2) { Step::SyncAll { h } } else { Step::SyncData { h } }),
+            12 => {
+                let k = pick(g);
+                st.push(Step::GetStr { h, k })
+            }
+            _ => st.push(if g.rng.chance(1, 2) { Step::DbSyncAll { d: 0 } } else { Step::IsDirty { h } }),
+        }
+    }
+    st
+}
+
+pub fn c15(seed: u64, tier: Tier) -> Vec<Episode> {
+    let thorough = tier == Tier::Thorough;
+    let mut g = Gen::new(seed, thorough);
+    let kt = ktype_pick(&mut g.rng);
+    let mut params = pick_params(&mut g.rng, false);
+    if g.rng.chance(1, 2) {
+        params.buckets = Buckets::Size(*g.rng.pick(&[1u64, 2, 4, 8, 16, 64, 72, 128, 256, 4096]));
+    }
+    let maps = single_map(&mut g.rng, kt, params);
+    let mut w = Weights::basic();
+    w.put = 40;
+    w.del = 25;
+    w.get = 2;
+    let cfg = HistCfg { maps: maps.clone(), alphabet: g.rng.range(1, 60) as usize, kd: KeyDist::Mixed, vd: ValDist::Mixed, steps: g.rng.range(0, 120) as usize, w, one_bucket: false, reopen_params: false, xproc_every: 0, bulk_max: 0 };
+    let mut st = history(&mut g, &cfg);
+    let live: Vec<Key> = {
+        let mut s = std::collections::BTreeSet::new();
+        for x in &st {
+            match x {
+                Step::Put { k, .. } => {
+                    s.insert(k.clone());
+                }
+                Step::Del { k, .. } => {
+                    s.remove(k);
+                }
+                _ => {}
+            }
+        }
+        s.into_iter().collect()
+    };
+    st.push(Step::CloseSnap { tag: 0 });
+    let n = g.rng.range(3, 40) as usize;
+    st.extend(readonly_session(&mut g, &maps, &[live], n));
+    st.push(Step::Audit);
+    st.push(Step::CloseCompare { tag: 0 });
+    let checks = Checks { model: true, audit_traverse: true, ..Default::default() };
+    vec![base_episode("C15", "readonly-session", seed, maps, st, checks)]
+}
+
+pub fn c16(seed: u64, tier: Tier) -> Vec<Episode> {
+    let thorough = tier == Tier::Thorough;
+    let mut g = Gen::new(seed, thorough);
+    let kt = ktype_pick(&mut g.rng);
+    let params = if g.rng.chance(1, 2) { small_params(&mut g.rng) } else { pick_params(&mut g.rng, false) };
+    let maps = single_map(&mut g.rng, kt, params);
+    let mut w = Weights::basic();
+    w.flush = 1;
+    let vd = *g.rng.pick(&[ValDist::Boundary, ValDist::Mixed, ValDist::Pushing]);
+    let cfg = HistCfg { maps: maps.clone(), alphabet: g.rng.range(2, 20) as usize, kd: KeyDist::Mixed, vd, steps: g.rng.range(3, 60) as usize, w, one_bucket: false, reopen_params: false, xproc_every: 0, bulk_max: 0 };
+    let mut st = history(&mut g, &cfg);
+    fn sync(g: &mut Gen) -> Step {
+        match g.rng.below(4) {
+            0 => Step::Flush { h: 0 },
+            1 => Step::SyncAll { h: 0 },
+            2 => Step::SyncData { h: 0 },
+            _ => Step::DbSyncAll { d: 0 },
+        }
+    }
+    // target call (the one that is made to fail in the derived episodes)
+    st.push(Step::Nop); // slot for a size cap in derived episodes
+    st.push(sync(&mut g));
+    st.push(Step::Audit);
+    // the application goes on while the condition persists
+    let cfg2 = HistCfg { steps: g.rng.range(0, 12) as usize, w: Weights::basic(), ..cfg.clone() };
+    st.extend(history(&mut g, &cfg2));
+    if g.rng.chance(1, 2) {
+        st.push(sync(&mut g)); // possibly a second failed flush
+        st.push(Step::Audit);
+    }
+    st.push(Step::Lift);
+    st.push(sync(&mut g));
+    st.push(Step::Audit);
+    let checks = Checks { model: true, fault_report: true, crash_points: true, sync_trace: true, crash_reopen_every: 1, audit_traverse: true, ..Default::default() };
+    vec![base_episode("C16", "base", seed, maps, st, checks)]
+}
+
+/// further episodes that depend on the outcome of a base run (C16: one per fault point)
+pub fn derive(prop: &str, tier: Tier, ep: &Episode, out: &crate::runner::Outcome) -> Vec<Episode> {
+    if prop != "C16" || ep.profile != "base" || out.violation.is_some() {
+        return vec![];
+    }
+    let target = match ep.steps.iter().position(|s| matches!(s, Step::Nop)) {
+        Some(p) => p as u32 + 1,
+        None => return vec![],
+    };
+    let evs: Vec<&(u32, KOp, String, u64, u64)> = out.sync_events.iter().filter(|e| e.0 == target).collect();
+    let mut r = Rng::new(mix(&[ep.seed, 0xc16]));
+    let mut out_eps = Vec::new();
+    let mut nth: std::collections::BTreeMap<(KOp, String), u32> = std::collections::BTreeMap::new();
+    let mut caps_done: std::collections::BTreeSet<(String, u64)> = std::collections::BTreeSet::new();
+    let max = if tier == Tier::Thorough { 400 } else { 60 };
+    for (_, op, file, off, len) in evs {
+        let n = {
+            let e = nth.entry((*op, file.clone())).or_insert(0);
+            let v = *e;
+            *e += 1;
+            v
+        };
+        let errno = *r.pick(&[libc::ENOSPC, libc::EFBIG, libc::EIO, libc::EDQUOT]);
+        let mut variants: Vec<(Action, bool)> = Vec::new();
+        match op {
+            KOp::Write => {
+                variants.push((Action::Errno(errno), true));
+                variants.push((Action::Errno(errno), false));
+                if *len > 1 {
+                    let m = *r.pick(&[1u64, *len / 2, *len - 1]);
+                    variants.push((Action::ShortThenErrno(m.max(1), errno), r.chance(1, 2)));
+                }
+            }
+            KOp::Fsync | KOp::Fdatasync => variants.push((Action::Errno(*r.pick(&[libc::EIO, libc::ENOSPC])), false)),
+            KOp::Ftruncate => variants.push((Action::Errno(errno), true)),
+            _ => {}
+        }
+        for (action, sticky) in variants {
+            if out_eps.len() >= max {
+                break;
+            }
+            let mut e = ep.clone();
+            e.profile = "fault-point".into();
+            e.faults = vec![Directive { step: target, op: *op, nth: n, file: file.clone(), action, sticky, seen: 0, fired: false }];
+            out_eps.push(e);
+        }
+        // RLIMIT_FSIZE formulation: a cap inside / at the start of this write
+        if *op == KOp::Write && *len > 0 {
+            for cap in [*off, *off + *len / 2, *off + *len - 1] {
+                if out_eps.len() < max && caps_done.insert((file.clone(), cap)) {
+                    let mut e = ep.clone();
+                    e.profile = "size-cap".into();
+                    e.steps[target as usize - 1] = Step::Cap { file: file.clone(), cap };
+                    out_eps.push(e);
+                }
+            }
+        }
+    }
+    out_eps
+}
+
+pub fn c17(seed: u64, tier: Tier) -> Vec<Episode> {
+    let thorough = tier == Tier::Thorough;
+    let mut g = Gen::new(seed, thorough);
+    let kt = ktype_pick(&mut g.rng);
+    let (params, alphabet, kd, _vd, steps, name) = update_variant(&mut g, thorough, false);
+    let maps = single_map(&mut g.rng, kt, params);
+    let mut w = Weights::basic();
+    w.put = 35;
+    w.del = 28;
+    w.stats = 8;
+    w.reopen = 1;
+    let cfg = HistCfg { maps: maps.clone(), alphabet, kd, vd: ValDist::Mixed, steps, w, one_bucket: g.rng.chance(1, 6), reopen_params: false, xproc_every: 0, bulk_max: 0 };
+    let mut st = history(&mut g, &cfg);
+    st.push(Step::Stats { h: 0 });
+    let checks = Checks { stats: true, ..Default::default() };
+    vec![base_episode("C17", name, seed, maps, st, checks)]
+}
+
+pub fn c18(seed: u64, tier: Tier, index: u64) -> Vec<Episode> {
+    let thorough = tier == Tier::Thorough;
+    let mut g = Gen::new(seed, thorough);
+    let nm = *g.rng.pick(&[1usize, 1, 2]);
+    let names = map_names();
+    let maps: Vec<MapSpec> = (0..nm)
+        .map(|i| MapSpec { name: names[i].to_string(), kt: ktype_pick(&mut g.rng), params: if g.rng.chance(1, 2) { small_params(&mut g.rng) } else { pick_params(&mut g.rng, false) }, dir: 0 })
+        .collect();
+    let mut w = Weights::basic();
+    w.get = 25;
+    w.inc = 10;
+    w.len = 8;
+    w.traverse = 8;
+    w.stats = 3;
+    w.read_fill = 3;
+    w.bulk = 4;
+    w.flush = 2;
+    w.sync = 1;
+    w.reopen = 1;
+    w.handles = 2;
+    let vd = *g.rng.pick(&[ValDist::Boundary, ValDist::Mixed, ValDist::Pushing]);
+    let cfg = HistCfg { maps: maps.clone(), alphabet: g.rng.range(2, 30) as usize, kd: KeyDist::Mixed, vd, steps: g.rng.range(10, 200) as usize, w, one_bucket: false, reopen_params: false, xproc_every: 0, bulk_max: 6 };
+    let st = history(&mut g, &cfg);
+    let mut ep = base_episode("C18", "twice", seed, maps, st, Checks::default());
+    let xproc_b = thorough || index % 8 == 0;
+    ep.plan = Plan::Twice { poison_a: 0, poison_b: *g.rng.pick(&[0x5au8, 0xa5, 0xff, 0x01]), xproc_b };
+    vec![ep]
+}
+
 pub fn episodes(prop: &str, tier: Tier, base_seed: u64, index: u64) -> Vec<Episode> {
     let seed = run_seed(prop, base_seed, index);
     match prop {
         "C01" => c01(seed, tier),
+        "C02" => c02(seed, tier),
+        "C03" => c03(seed, tier),
+        "C04" => c04(seed, tier),
+        "C05" => c05(seed, tier),
+        "C06" => c06(seed, tier),
+        "C07" => c07(seed, tier, index),
+        "C08" => c08(seed, tier),
+        "C09" => c09(seed, tier, index),
+        "C10" => c10(seed, tier),
+        "C11" => c11(seed, tier),
+        "C12" => c12(seed, tier, index),
+        "C13" => c13(seed, tier, index),
+        "C14" => c14(seed, tier),
+        "C15" => c15(seed, tier),
+        "C16" => c16(seed, tier),
+        "C17" => c17(seed, tier),
+        "C18" => c18(seed, tier, index),
         _ => vec![],
     }
-}
-
-/// further episodes that depend on the outcome of a base run (C16: one per fault point)
-pub fn derive(_prop: &str, _tier: Tier, _ep: &Episode, _out: &crate::runner::Outcome) -> Vec<Episode> {
-    vec![]
 }
 
 pub fn rule_text(prop: &str) -> String {
@@ -125,8 +1060,9 @@ distinct_nontrivial = number of distinct (hash of all API results, hash of the c
         "C04" => "performed an update and completed or abandoned at least one traversal",
         "C05" => "performed an update and had at least one image decoded",
         "C06" => "performed an update and extended a file or reused/released a free slot under the decoder",
-        "C08" => "relocated a record or worked on a collision chain",
-        "C13" => "attempted at least one foreign / corrupted / matching open",
+        "C08" => "relocated a record or worked on a collision chain of >= 2 keys",
+        "C09" => "compared the bytes of untouched neighbour slots across at least one store",
+        "C13" => "attempted at least one foreign / corrupted / matching open (the case list is enumerated completely)",
         "C15" => "completed a read-only session with image comparison",
         "C16" => "had an injected refusal actually fire",
         "C17" => "compared the statistics calls with the decoded image",
